@@ -15,12 +15,13 @@ LEVEL = "exploration"
 RULE = (
     "case = (k consecutive transient failures, k in 0..13 and 'always') x (with / without context_update) x (task first / "
     "middle / last of a 1-3 task stage) x (FIFO / shuffled delivery with withheld acks), plus polling tasks with n in "
-    "0..5 polls; plus the transient / polling result racing another worker's committed write to the same stage row "
+    "0..5 polls; plus 1-8 transient failures and 1-12 polls of ONE task mixed in random order (polls must not eat the retry "
+    "budget); plus the transient / polling result racing another worker's committed write to the same stage row "
     "(persistent signal being buffered) at statement granularity. The ledger gives the number of executions and the context each attempt saw. Non-trivial = k>=1 or n>=1; "
     "distinct = (kind, k, cu, position, ntasks, order class)."
 )
 ASSUMPTIONS = ["SQLite backend", "limit = Message.max_attempts (10); executions beyond max_attempts+1 = 11 count as a broken bound (generous to either reading of 'attempts')"]
-MIN_OBS = {"transient_failures_observed": {"quick": 300, "thorough": 3000}, "polls_observed": {"quick": 50, "thorough": 500}}
+MIN_OBS = {"transient_failures_observed": {"quick": 300, "thorough": 3000}, "polls_observed": {"quick": 50, "thorough": 500}, "mixed_scripts": {"quick": 20, "thorough": 200}}
 TIMEOUT = {"quick": 600, "thorough": 3000}
 LIMIT = 10
 
@@ -29,6 +30,8 @@ def _spec(kind: str, k: int, cu: bool, pos: int, ntasks: int) -> dict:
     t = [{"kind": "ok", "out": [f"o{j}"]} for j in range(ntasks)]
     if kind == "transient":
         t[pos] = {"kind": "transient", "n": k, "cu": cu, "out": ["r_o"]}
+    elif kind == "mixed":
+        t[pos] = {"kind": "script", "steps": k, "out": ["r_o"]}
     else:
         t[pos] = {"kind": "poll", "n": k, "out": ["r_o"]}
     return {"name": f"{kind}{k}{'cu' if cu else ''}_p{pos}of{ntasks}", "confluent": True, "stages": [specs.st("a"), specs.st("b", ["a"], t), specs.st("c", ["b"])]}
@@ -49,6 +52,13 @@ def gen_cases(tier: str, seed: int) -> list[dict]:
             ntasks = rng.randint(1, 3)
             for order in ("fifo", "random"):
                 cases.append({"kind": "poll", "k": n, "cu": False, "pos": rng.randrange(ntasks), "ntasks": ntasks, "order": order, "seed": rng.randrange(1 << 30)})
+    for rep in range(reps * 6):
+        # polls and transient failures of ONE task mixed in random order: polls must not eat the retry budget
+        nt, npoll = rng.randint(1, 8), rng.randint(1, 12)
+        steps = list("T" * nt + "R" * npoll)
+        rng.shuffle(steps)
+        ntasks = rng.randint(1, 3)
+        cases.append({"kind": "mixed", "k": "".join(steps), "cu": True, "pos": rng.randrange(ntasks), "ntasks": ntasks, "order": rng.choice(["fifo", "random"]), "seed": rng.randrange(1 << 30)})
     for rkind in ("transient", "poll"):
         for nth in (0, 1):
             cases.append({"kind": "race", "rkind": rkind, "k": 3, "nth": nth, "seed": seed, "sample": 60 if tier == "quick" else 2000})
@@ -137,7 +147,7 @@ def run_case(case: dict) -> dict:
     spec = _spec(case["kind"], case["k"], case["cu"], case["pos"], case["ntasks"])
     k = case["k"]
     noack = 0.25 if case["order"] == "random" else 0.0
-    run = delivery_run(spec, seed=case["seed"], order=case["order"], noack_p=noack, max_steps=140)
+    run = delivery_run(spec, seed=case["seed"], order=case["order"], noack_p=noack, max_steps=140 if case["kind"] != "mixed" else 260)
     obs: Counter = Counter({"evaluations": 1})
     out = []
     recs = [r for r in run.ledger if r["ref"] == "b" and r["task"] == case["pos"]]
@@ -166,6 +176,20 @@ def run_case(case: dict) -> dict:
                 if r["ctx"].get(f"_xv{case['pos']}") != f"b.try{case['pos']}@0.{i}":
                     out.append(viol("C14/context-update-lost", f"attempt {i} saw marker {r['ctx'].get('_xv' + str(case['pos']))}"))
                     break
+    elif case["kind"] == "mixed":
+        steps = k
+        nt = steps.count("T")
+        obs["transient_failures_observed"] += sum(1 for r in recs if str(r.get("result", "")).startswith("raise:"))
+        obs["polls_observed"] += steps.count("R")
+        obs["mixed_scripts"] += 1
+        # nt <= 8 transient failures are below the documented maximum whatever the number of polls in between
+        if n != len(steps) + 1:
+            out.append(viol("C14/wrong-execution-count:polls-and-failures-mixed", f"script {steps} ({nt} transient failures, {steps.count('R')} polls) then success: executed {n} times, expected {len(steps) + 1}; task {tstatus}, workflow {run.state['wf']}"))
+        if not (tstatus == "SUCCEEDED" and run.state["wf"] == "SUCCEEDED"):
+            out.append(viol("C14/retry-did-not-complete:polls-and-failures-mixed", f"script {steps}: task {tstatus}, workflow {run.state['wf']} after {n} executions (quiescent={run.quiescent})"))
+        counters = [r.get("counter") for r in recs]
+        if counters != list(range(len(counters))):
+            out.append(viol("C14/context-update-lost", f"step i must see the progress of step i-1: saw counters {counters}"))
     else:
         obs["polls_observed"] += max(0, n - 1)
         if n != k + 1:
@@ -193,7 +217,9 @@ def run_case(case: dict) -> dict:
                 if c > 1:
                     out.append(viol("C14/sibling-task-count", f"task {j} of the stage executed {c} times"))
     keys = []
-    if k != 0:
+    if case["kind"] == "mixed":
+        keys.append(f"mixed:{k.count('T')}:{k.count('R')}:{case['pos']}/{case['ntasks']}:{case['order']}")
+    elif k != 0:
         keys.append(f"{case['kind']}:{k}:{case['cu']}:{case['pos']}/{case['ntasks']}:{case['order']}")
     sample = {"case": case, "executions": n, "task": tstatus, "workflow": run.state["wf"], "attempt_counters": [r.get("counter") for r in recs][:14]}
     return {"violations": out, "obs": dict(obs), "keys": keys, "sample": sample if k == 3 else None}
